@@ -82,8 +82,14 @@ fn get_node_cover_range_impl(
             return Some(res);
         }
     }
+    // A field access that is called is a method call. It must stay together with the call,
+    // as wrapping it in parentheses alone would turn it into a call of the field value.
+    let is_method_callee = node.kind() == SyntaxKind::FieldAccess
+        && node.parent_kind() == Some(SyntaxKind::FuncCall)
+        && node.index() == 0;
     let node_range = node.range();
-    (node_range.start <= range.start
+    (!is_method_callee
+        && node_range.start <= range.start
         && node_range.end >= range.end
         // A nested markup cannot be formatted alone: the blanks at its edges and the
         // indentation of its list items depend on the enclosing node. Use that node instead.
